@@ -934,14 +934,43 @@ inductive SPath where
   | bad | small | chunks
   deriving Repr, DecidableEq, Inhabited
 
+/-- the conversion proper of `bintRadixScanFrString`, once the sign, the radix and the characters of the
+whole part are known: result and path. -/
+def radixScanCore (isNeg : Bool) (radix : Int) (num : List Char) : BInt × SPath :=
+  let rdx := radix.toNat
+  let maxi := R / rdx
+  let rd := powLoop true rdx maxi 64 rdx 1
+  let rio := (rd.1 * rdx) % W
+  let dio := rd.2 + 1
+  let bpd := Nat.log2 rdx + 1          -- (ULong)(log(radix)/log(2.0)) + 1
+  let ndigs := num.length
+  let nbits := ndigs * bpd
+  if nbits ≤ LGIMM then
+    let ires := strtolDigits rdx num 0 % W
+    let ires := if isNeg then uw (-(ires : Int)) else ires
+    (intToBInt (wrapL ires), .small)
+  else
+    let l0 := ndigs % dio
+    let first := xintCopyInI (chunkVal radix (num.take l0))
+    let ds := scanChunks radix rio dio (ndigs + 1) (num.drop l0) (digitsOf first)
+    (xintImmedIfCan (.big isNeg ds), .chunks)
+
+/-- `if ((*num == '+') || (*num == '-')) { isNeg = (*num == '-'); num++; }` -/
+def scanSignPM : List Char → Bool × List Char
+  | '+' :: r => (false, r)
+  | '-' :: r => (true, r)
+  | r => (false, r)
+
+/-- `if (*s == '-') { isNeg = true; s++; }` -/
+def scanSignM : List Char → Bool × List Char
+  | '-' :: r => (true, r)
+  | r => (false, r)
+
 /-- `bintRadixScanFrString(num, &end)`: result, number of characters consumed, path. -/
 def bintRadixScan (s : List Char) : BInt × Nat × SPath :=
   let s1 := s.dropWhile isSpaceC
-  let (isNeg, s2) :=
-    match s1 with
-    | '+' :: r => (false, r)
-    | '-' :: r => (true, r)
-    | r => (false, r)
+  let isNeg := (scanSignPM s1).1
+  let s2 := (scanSignPM s1).2
   let pre := s2.takeWhile isDigitC
   let after := s2.drop pre.length
   let hasRadix := after.head? = some 'r'
@@ -953,51 +982,39 @@ def bintRadixScan (s : List Char) : BInt × Nat × SPath :=
     let radix : Int := if hasRadix then (strtolDigits 10 (pre.take 64) 0 : Nat) else 10
     if hasRadix && (radix < 2 || radix > 36) then (intToBInt 0, endPos, .bad)
     else
-      let num := if hasRadix then whole else pre
-      let rdx := radix.toNat
-      let maxi := R / rdx
-      let rd := powLoop true rdx maxi 64 rdx 1
-      let rio := (rd.1 * rdx) % W
-      let dio := rd.2 + 1
-      let bpd := Nat.log2 rdx + 1          -- (ULong)(log(radix)/log(2.0)) + 1
-      let ndigs := num.length
-      let nbits := ndigs * bpd
-      if nbits ≤ LGIMM then
-        let ires := strtolDigits rdx num 0 % W
-        let ires := if isNeg then uw (-(ires : Int)) else ires
-        (intToBInt (wrapL ires), endPos, .small)
-      else
-        let l0 := ndigs % dio
-        let first := xintCopyInI (chunkVal radix (num.take l0))
-        let ds := scanChunks radix rio dio (ndigs + 1) (num.drop l0) (digitsOf first)
-        (xintImmedIfCan (.big isNeg ds), endPos, .chunks)
+      let r := radixScanCore isNeg radix (if hasRadix then whole else pre)
+      (r.1, endPos, r.2)
 
 /-- `bintFrString`. -/
 def bintFrString (s : List Char) : BInt := (bintRadixScan s).1
 
-/-- `bintScanFrString(s, &end)` (decimal only): result, characters consumed, path. -/
-def bintScan (s : List Char) : BInt × Nat × SPath :=
+/-- the conversion proper of `bintScanFrString`, once the sign and the decimal digits (leading zeros
+skipped) are known: result and path. -/
+def scanCore (isNeg : Bool) (digs : List Char) : BInt × SPath :=
   let dim := (powLoop false 10 MAXI.toNat 64 10 1).2
   let rd := powLoop false 10 R 64 10 1
   let rio := rd.1
   let dio := rd.2
-  let s1 := s.dropWhile isSpaceC
-  let (isNeg, s2) :=
-    match s1 with
-    | '-' :: r => (true, r)
-    | r => (false, r)
-  let s3 := s2.dropWhile (· = '0')
-  let digs := s3.takeWhile isDigitC
   let ndig := digs.length
-  let endPos := (s.length - s3.length) + ndig
   if ndig ≤ dim then
     let n := chunkVal 10 digs
-    (intToBInt (if isNeg then wrapL (-n) else n), endPos, .small)
+    (intToBInt (if isNeg then wrapL (-n) else n), .small)
   else
     let l0 := ndig % dio
     let first := xintCopyInI (chunkVal 10 (digs.take l0))
     let ds := scanChunks 10 rio dio (ndig + 1) (digs.drop l0) (digitsOf first)
-    (xintImmedIfCan (.big isNeg ds), endPos, .chunks)
+    (xintImmedIfCan (.big isNeg ds), .chunks)
+
+/-- `bintScanFrString(s, &end)` (decimal only): result, characters consumed, path. -/
+def bintScan (s : List Char) : BInt × Nat × SPath :=
+  let s1 := s.dropWhile isSpaceC
+  let isNeg := (scanSignM s1).1
+  let s2 := (scanSignM s1).2
+  let s3 := s2.dropWhile (· = '0')
+  let digs := s3.takeWhile isDigitC
+  let endPos := (s.length - s3.length) + digs.length
+  let r := scanCore isNeg digs
+  (r.1, endPos, r.2)
 
 /-! ## foam_i.c -/
 
@@ -1077,7 +1094,7 @@ def powerModLoop (bit : Nat → Bool) (c : BInt) : Nat → Nat → BInt → BInt
 
 /-- `fiBIntPowerMod(a, b, c)` for `c ≠ 0`, `b ≥ 0`. -/
 def fiBIntPowerMod (a b c : BInt) : BInt :=
-  if bintIsZero b then .imm 1
+  if bintIsZero b then bintMod (.imm 1) c
   else
     let reda := bintMod a c
     if bintIsZero reda then .imm 0
